@@ -40,6 +40,10 @@ def str_roundtrip(tier, seed, only=None):
     return dict(evaluations=n, distinct_nontrivial=len(seen), failures=fails[:20])
 
 
+# texts that are special to some formatting / parsing mechanism a repr may go through (str.format, %-formatting, quoting, eval)
+TRICKY_TEXTS = ['{}', '{0}', 'open { brace', 'close } brace', '{{chorus}}', '%s and %d', '100%', "'", '"', '\\', ')]', 'MidiTrack([', '\x00', 'a\rb', '\u2028']
+
+
 def _meta_messages():
     import mido
     out = []
@@ -50,7 +54,7 @@ def _meta_messages():
             if kind == 'int':
                 grids.append((nm, sorted({lo, hi, (lo + hi) // 2})))
             elif kind == 'text':
-                grids.append((nm, ['', 'abc', "it's \"q\" \\ \n\t", 'é' * 3]))
+                grids.append((nm, ['', 'abc', "it's \"q\" \\ \n\t", 'é' * 3] + TRICKY_TEXTS))
             elif kind == 'rate':
                 grids.append((nm, [24, 25, 29.97, 30]))
             elif kind == 'key':
@@ -71,7 +75,7 @@ def _meta_messages():
     return out
 
 
-@bounded('eval-repr', ('C14',), 'messages: 18 types x boundary grid x 4 finite times; all meta types x boundary grids; UnknownMetaMessage; tracks of length 0..4; files of 0..3 tracks')
+@bounded('eval-repr', ('C14',), 'messages: 18 types x boundary grid x 4 finite times; all meta types x boundary grids; UnknownMetaMessage; tracks of length 0..4; files of 0..3 tracks; text-like meta messages (alone, in tracks and in files) with braces, percent signs, quotes, backslashes, brackets, NUL and line separators')
 def eval_repr(tier, seed, only=None):
     import mido
     from mido import Message, MetaMessage, UnknownMetaMessage, MidiTrack, MidiFile   # noqa: F401 (eval namespace)
@@ -87,14 +91,20 @@ def eval_repr(tier, seed, only=None):
     objs += metas
     some = [mido.Message('note_on', note=1, time=2), metas[0], metas[-1], mido.Message('sysex', data=(1, 2)), metas[5]]
     tracks = [MidiTrack(some[:k]) for k in range(5)]
+    tricky = MidiTrack([mido.MetaMessage(tp, time=i, **{('name' if 'name' in tp else 'text'): tx})
+                        for i, (tp, tx) in enumerate(zip(['text', 'lyrics', 'marker', 'track_name', 'cue_marker', 'copyright', 'instrument_name', 'device_name'] * 2, TRICKY_TEXTS))])
+    tracks.append(tricky)
     objs += tracks
+    objs.append(MidiFile(type=1, ticks_per_beat=480, tracks=[MidiTrack(tricky), MidiTrack(some[:2])]))
+    objs += [MidiFile(type=0, ticks_per_beat=96, tracks=[MidiTrack([m])]) for m in tricky]
     for k in range(4):
         objs.append(MidiFile(type=1 if k != 1 else 0, ticks_per_beat=96 * (k + 1), tracks=[MidiTrack(tr) for tr in tracks[1:1 + k]]))
     for o in objs:
         n += 1
-        r = repr(o)
-        seen.add(r)
+        r = '<repr failed>'
         try:
+            r = repr(o)
+            seen.add(r)
             back = eval(r, dict(ns))
             if isinstance(o, MidiFile):
                 ok = (back.type, back.ticks_per_beat, back.tracks) == (o.type, o.ticks_per_beat, o.tracks)
@@ -103,7 +113,11 @@ def eval_repr(tier, seed, only=None):
         except Exception as ex:
             ok, back = False, ex
         if not ok:
-            fails.append(dict(clause='eval(repr(x)) == x', inputs=dict(repr=r[:300]), detail=repr(back)[:200]))
+            try:
+                shown = repr(back)[:200]
+            except Exception as ex2:      # noqa  (the value that came back cannot even be shown)
+                shown = 'repr of the result raised %r' % ex2
+            fails.append(dict(clause='eval(repr(x)) == x', inputs=dict(repr=r[:300], kind=type(o).__name__), detail=shown))
     return dict(evaluations=n, distinct_nontrivial=len(seen), failures=fails[:20])
 
 
